@@ -26,6 +26,7 @@ def register(reg):
     reg.add(Contract(
         target=f'{SEG}.reassign_labels', props=['C05'], kind='method',
         block=('relabel_map', 'data_new'), tag='lookup-table',
+        block_like='np.zeros(self.max_label + 1, dtype=dtype)',
         params={'self': 'SegmentationImage', 'labels': ('seq', 'int'), 'new_label': 'nat',
                 'relabel': ('const', False), 'dtype': ('const', 'int')},
         requires=inv + [
@@ -47,6 +48,7 @@ def register(reg):
     reg.add(Contract(
         target=f'{SEG}.relabel_consecutive', props=['C05'], kind='method',
         block=('new_labels', 'data_new'), tag='lookup-table',
+        block_like='np.arange(self.nlabels, dtype=dtype) + start_label',
         params={'self': 'SegmentationImage', 'start_label': 'pos', 'dtype': ('const', 'int')},
         requires=inv,
         ensures=[
